@@ -463,6 +463,42 @@ fn poly_modulus(n: &W, quick: bool) -> (u64, Vec<Bad>) {
             }
         }
     }
+    // roots_eval on the complete grid of (number of roots, number of points): the ring is sized
+    // from the points while the operands are padded to the next power of two, and the chunked
+    // remainder branch starts when the roots outnumber the padded points -- every combination
+    // of the two lengths is a different path through the product tree
+    if !quick || [64u32, 128, 256, 500].contains(&n.bits()) {
+        let (amax, bmax) = if quick { (72usize, 40usize) } else { (140, 70) };
+        let roots = gen_vec(amax, n, 4242);
+        for nb in 1..=bmax {
+            let pts = gen_vec(nb, n, 4300 + nb as u64);
+            let mut vals = vec![W::ONE; nb];
+            for na in 1..=amax {
+                for j in 0..nb {
+                    vals[j] = rm::w_mulmod(&vals[j], &((pts[j] + *n - roots[na - 1]) % *n), n);
+                }
+                ev += 1;
+                match guarded(|| Poly::roots_eval(&zn, &mv(&roots[..na]), &mv(&pts))) {
+                    Err(e) => bad.push(Bad {
+                        key: format!("fn=roots_eval;what=panic;site={}", e.site),
+                        what: format!("roots_eval n={} |a|={} |b|={} (grid): panic {}", n, na, nb, e.short()),
+                    }),
+                    Ok(g) => {
+                        let g = wv(&g);
+                        if g.len() < nb || (0..nb).any(|j| g[j] != vals[j]) {
+                            bad.push(Bad {
+                                key: format!("fn=roots_eval;bits={}", n.bits()),
+                                what: format!("roots_eval n={} |a|={} |b|={} (grid): wrong value", n, na, nb),
+                            });
+                        }
+                    }
+                }
+                if bad.len() > 12 {
+                    break;
+                }
+            }
+        }
+    }
     // from_roots / eval / multi_eval / roots_eval
     let degs: Vec<usize> = if quick { vec![1, 2, 3, 7, 8, 9, 27, 28, 29, 64, 65] } else { vec![1, 2, 3, 5, 7, 8, 9, 15, 16, 17, 27, 28, 29, 31, 32, 33, 63, 64, 65, 100, 128, 129, 255, 256, 257] };
     for &dg in &degs {
@@ -602,7 +638,7 @@ pub fn run(ctx: &Ctx) -> Report {
     rep.sample(J::obj(vec![("fn", J::s("convolve_modn")), ("n", J::s("2^192-1")), ("a", J::s("e_{size/2}")), ("b", J::s("ones"))]));
     rep.sample(J::obj(vec![("fn", J::s("mul_fft / mul_karatsuba / mul_basic")), ("lengths", J::s("28 x 29")), ("n", J::s(pm.last().cloned().unwrap_or(W::ONE)))]));
     rep.sample(J::obj(vec![("fn", J::s("roots_eval")), ("|a|", J::from(65u64)), ("|b|", J::from(64u64))]));
-    rep.rule = format!("moduli: 2^b-1, 2^(b-1)+1 and a generic shape for b in {{2,17,64,65,128,149..151,155,156,192,244..246,256,279..281,309..311,320,384,448,499,500}} (both sides of every Kronecker packing class edge; quick: two shapes), plus 2^64+1. Convolutions (Schonhage-Strassen and multi-prime NTT): every transform size 2^1..2^{}, operand lengths {{1, size/2-1, size/2, size/2+1, size}}^2, offsets {{0,1,size/2,size-1}}, operands = small signed patterns (ones, n-1, ramp, n-1-ramp, alternating, quadratic, zeros, unit vectors at every position for size <= 64) x residue multipliers {{1, n/3}}: all pattern pairs at full length and for size <= 16, a deterministic rotation elsewhere; above that up to 2^{} the 12 full-length worst-case pairs {{ones,n-1,n/3}} x {{ones,n-1,n/3,ramp}} (largest accumulated sums), 12 unit-vector pairs near the middle and the end with offsets (shifted/negated residues in the large-element ring product) and two dense signed pairs; reference = exact integer convolution (i128) folded cyclically, one reduction per coefficient. Poly operations on 12 moduli: mul_basic/mul_karatsuba/mul_fft for (quick: a third of) all length pairs <= {} and 2^j-1,2^j,2^j+1, middle product, power-series quotient (q*d = p mod x^len), from_roots, multi_eval and roots_eval for point counts below/equal/above the degree, against bnum schoolbook with 1152-bit accumulators.", kmax, kstress, if quick { 40 } else { 72 });
+    rep.rule = format!("moduli: 2^b-1, 2^(b-1)+1 and a generic shape for b in {{2,17,64,65,128,149..151,155,156,192,244..246,256,279..281,309..311,320,384,448,499,500}} (both sides of every Kronecker packing class edge; quick: two shapes), plus 2^64+1. Convolutions (Schonhage-Strassen and multi-prime NTT): every transform size 2^1..2^{}, operand lengths {{1, size/2-1, size/2, size/2+1, size}}^2, offsets {{0,1,size/2,size-1}}, operands = small signed patterns (ones, n-1, ramp, n-1-ramp, alternating, quadratic, zeros, unit vectors at every position for size <= 64) x residue multipliers {{1, n/3}}: all pattern pairs at full length and for size <= 16, a deterministic rotation elsewhere; above that up to 2^{} the 12 full-length worst-case pairs {{ones,n-1,n/3}} x {{ones,n-1,n/3,ramp}} (largest accumulated sums), 12 unit-vector pairs near the middle and the end with offsets (shifted/negated residues in the large-element ring product) and two dense signed pairs; reference = exact integer convolution (i128) folded cyclically, one reduction per coefficient. Poly operations on 12 moduli: mul_basic/mul_karatsuba/mul_fft for (quick: a third of) all length pairs <= {} and 2^j-1,2^j,2^j+1, middle product, power-series quotient (q*d = p mod x^len), from_roots, multi_eval and roots_eval for point counts below/equal/above the degree, roots_eval on the complete grid of 1..72 roots x 1..40 points (thorough 140 x 70) on four (thorough: all twelve) moduli, against bnum schoolbook with 1152-bit accumulators.", kmax, kstress, if quick { 40 } else { 72 });
     rep.assumptions.push("reference arithmetic: i128 integer convolution and bnum".into());
     rep
 }
